@@ -253,10 +253,6 @@ func (dr *DecodingReader) List(add func() Deserializable, fixedElemSize uint64, 
 			if len(offsets) > i+1 {
 				next = offsets[i+1]
 			}
-			if next == off {
-				prev = off
-				continue
-			}
 			sub, err := dr.SubScope(next - off)
 			if err != nil {
 				return err
